@@ -77,7 +77,7 @@ ASSUME_D = [
 PROG_KINDS = {
     "C02": [("args", "flow"), ("results", "flow"), ("calls", "flow"), ("order", "flow"), ("agree", None), ("topo", None), ("deps", None)],
     "C01": [("deps", None), ("order", None)],
-    "C03": [("maxin", None)],
+    "C03": [("maxin", None), ("gids", None)],
     "C04": [("crash", None), ("ret", None)],
     "C05": [("crash", None)],
     "C06": [("quiesce", None)],
